@@ -50,7 +50,7 @@ SizeEqP(sz, K, lim) == LET m == IF Cardinality(K) < lim THEN Cardinality(K) ELSE
                        IF DanglingP(K) THEN sz \in {-1, m} ELSE sz = m
 ListOK(s) ==
     /\ ListEqP(s.list.a, PairsP("a", "", "")) /\ ListEqP(s.list.ax, PairsP("a", "x", "")) /\ ListEqP(s.list.axn1, PairsP("a", "x", "n1"))
-    /\ ListEqP(s.list.b, PairsP("b", "", "")) /\ ListEqP(s.list.ay, PairsP("a", "y", ""))
+    /\ ListEqP(s.list.b, PairsP("a2", "", "")) /\ ListEqP(s.list.ay, PairsP("a", "x2", ""))
     /\ SizeEqP(s.list.aLimit1, PairsP("a", "", ""), 1) /\ SizeEqP(s.list.aLimit2, PairsP("a", "", ""), 2)
 ProcOnP(a, e, n) == LET K == {k \in Dom(proc') : k[1] = a \o "/" \o e /\ k[2] = n}
                         RECURSIVE S(_)
@@ -58,7 +58,7 @@ ProcOnP(a, e, n) == LET K == {k \in Dom(proc') : k[1] = a \o "/" \o e /\ k[2] = 
                     IN S(K)
 RowOK(row, a, e) == /\ Len(row) = 4 /\ row[4] = 0
                     /\ \A i \in 1..3 : LET n == <<"n1", "n2", "n3">>[i] IN row[i] = Cardinality(PairsP(a, e, n)) + ProcOnP(a, e, n)
-DeployOK(s) == RowOK(s.deploy.ax, "a", "x") /\ RowOK(s.deploy.ay, "a", "y") /\ RowOK(s.deploy.bx, "b", "x")
+DeployOK(s) == RowOK(s.deploy.ax, "a", "x") /\ RowOK(s.deploy.ay, "a", "x2") /\ RowOK(s.deploy.bx, "a2", "x")
 
 FirstBad(s) == IF ~PodsOK(s) THEN "pods" ELSE IF ~PodOK(s) THEN "pod" ELSE IF ~NodeOK(s) THEN "node" ELSE IF ~WlOK(s) THEN "wl"
                ELSE IF ~ListOK(s) THEN "list" ELSE IF ~DeployOK(s) THEN "deploy" ELSE "none"
